@@ -14,8 +14,10 @@ FLAVOURS = {
     # name: (compiler, std, extra flags)
     "unchecked": ("g++", "c++17", ["-O1", "-g", "-DSBEPP_DISABLE_ASSERTS"]),
     "checked": ("g++", "c++17", ["-O1", "-g", "-DSBEPP_ENABLE_ASSERTS_WITH_HANDLER"]),
-    # C++20 (bit_cast / ranges / operator<=> paths of sbepp.hpp) and std::byte views, unoptimised
-    "unchecked_O0": ("g++", "c++20", ["-O0", "-g", "-DSBEPP_DISABLE_ASSERTS", "-DWIRE_BYTE=std::byte"]),
+    # C++23 (the bit_cast / ranges / operator<=> paths of sbepp.hpp and, beyond C++20, the std::byteswap one:
+    # SBEPP_HAS_BYTESWAP) and std::byte views, unoptimised. The C++20 configuration (bit_cast with the library's own
+    # byteswap) stays covered by the clang flavours of the thorough tier and by the unchecked dynarr build
+    "unchecked_O0": ("g++", "c++2b", ["-O0", "-g", "-DSBEPP_DISABLE_ASSERTS", "-DWIRE_BYTE=std::byte"]),
     "checked_clang20": ("clang++", "c++20", ["-O1", "-g", "-DSBEPP_ENABLE_ASSERTS_WITH_HANDLER", "-DWIRE_BYTE=unsigned char"]),
     "unchecked_clang20": ("clang++", "c++20", ["-O1", "-g", "-DSBEPP_DISABLE_ASSERTS"]),
 }
